@@ -595,6 +595,36 @@ read_tun(int tun_fd, char *buf, size_t len)
 }
 #endif
 
+/* Only plain dotted-quad addresses may be put on a command line. inet_addr()
+ * also accepts hex/octal/short forms and stops at the first whitespace, so
+ * "10.0.0.2 ;cmd" would pass it. */
+static int
+is_dotted_quad(const char *s)
+{
+	int parts;
+
+	for (parts = 0; parts < 4; parts++) {
+		int digits = 0;
+		int value = 0;
+
+		while (*s >= '0' && *s <= '9') {
+			value = value * 10 + (*s - '0');
+			digits++;
+			s++;
+			if (digits > 3 || value > 255)
+				return 0;
+		}
+		if (digits == 0)
+			return 0;
+		if (parts < 3) {
+			if (*s != '.')
+				return 0;
+			s++;
+		}
+	}
+	return *s == '\0';
+}
+
 int
 tun_setip(const char *ip, const char *other_ip, int netbits)
 {
@@ -630,8 +660,12 @@ tun_setip(const char *ip, const char *other_ip, int netbits)
 		netmask <<= (32 - netbits);
 	net.s_addr = htonl(netmask);
 
-	if (inet_addr(ip) == INADDR_NONE) {
+	if (!is_dotted_quad(ip) || inet_addr(ip) == INADDR_NONE) {
 		fprintf(stderr, "Invalid IP: %s!\n", ip);
+		return 1;
+	}
+	if (!is_dotted_quad(other_ip)) {
+		fprintf(stderr, "Invalid IP: %s!\n", other_ip);
 		return 1;
 	}
 #ifndef WINDOWS32
